@@ -28,6 +28,28 @@ Definition Ext (w w' : world) : Prop :=
   (forall i, i < w_next w -> w_nodes w' i = w_nodes w i) /\
   w_files w' = w_files w /\ w_models w' = w_models w.
 
+(* orig, orig_1, orig_2, ... : the names make_unique_item_name may choose *)
+Definition suffixed (orig : list N) (k : N) : list N := orig ++ [95] ++ to_dec k.
+Definition NameOf (orig name : list N) : Prop := name = orig \/ exists k, 1 <= k /\ name = suffixed orig k.
+
+
+(* every node of the copy is fresh *)
+Inductive FreshTree (lo : N) (w : world) : id -> Prop :=
+| FT_node c nc : w_nodes w c = Some nc -> lo <= c ->
+    (forall x, In (CElem x) (n_content nc) -> FreshTree lo w x) -> FreshTree lo w c.
+
+
+(* the model list changes at most in the two index maps of model m *)
+Definition IdxOnly (m : N) (ms ms' : list model) : Prop :=
+  ms' = ms \/
+  exists x i o, nth_opt ms (N.to_nat m) = Some x /\
+                ms' = list_set ms (N.to_nat m) (mkModel (m_root x) (m_files x) i o).
+
+
+Definition FreeName (w : world) (m : N) (path : list N) : Prop :=
+  exists x, nth_opt (w_models w) (N.to_nat m) = Some x /\ assoc_get path (m_idents x) = None.
+
+
 Section Defs.
 Variable T : tables.
 
@@ -114,6 +136,27 @@ Scheme AllValidIn_mind := Minimality for AllValidIn Sort Prop
   with AllValidItems_mind := Minimality for AllValidItems Sort Prop.
 Combined Scheme AllValid_mutind from AllValidIn_mind, AllValidItems_mind.
 
+(* what a copy into `self` (an element of model m) may touch: nothing allocated before except `self`, no file, and of
+   the models only the two index maps of m *)
+Definition CopyFrame (self : id) (m : N) (w w' : world) : Prop :=
+  w_next w <= w_next w' /\ (forall i, i < w_next w -> i <> self -> w_nodes w' i = w_nodes w i) /\
+  w_files w' = w_files w /\ IdxOnly m (w_models w) (w_models w').
+
+(* the fresh part: the final world w' against the world w1 right after deep_copy.  The copy c got its parent link;
+   if it had to be renamed, the text of its SHORT-NAME (its first sub-element s) is `name`; nothing else differs *)
+Definition CopyRel (w1 w' : world) (self c : id) : Prop :=
+  exists nc1, w_nodes w1 c = Some nc1 /\ w_nodes w' c = Some (set_parent nc1 (PElem self)) /\
+  ((forall i, i <> self -> i <> c -> w_nodes w' i = w_nodes w1 i) \/
+   exists s rest sn name orig,
+     n_content nc1 = CElem s :: rest /\ w_nodes w1 s = Some sn /\ c < s /\
+     w_nodes w' s = Some (set_content sn [CData (DString name)]) /\
+     (exists k, 1 <= k /\ name = suffixed orig k) /\
+     item_name T (set_parent nc1 (PElem self))
+       (mkWorld (upd (w_nodes w1) c (set_parent nc1 (PElem self))) (w_next w1) (w_files w1) (w_models w1))
+     = Val (OK (Some orig), mkWorld (upd (w_nodes w1) c (set_parent nc1 (PElem self))) (w_next w1) (w_files w1) (w_models w1)) /\
+     (forall i, i <> self -> i <> c -> i <> s -> w_nodes w' i = w_nodes w1 i)).
+
+
 End Defs.
 
 (* ---------- Iso up to the text of the own SHORT-NAME ----------
@@ -127,10 +170,6 @@ Definition IsoRen (w w' : world) (s c : id) (name : list N) : Prop :=
     w_nodes w s0 = Some sn0 /\ w_nodes w' c0 = Some cn0 /\
     n_name cn0 = n_name sn0 /\ n_type cn0 = n_type sn0 /\ n_comment cn0 = n_comment sn0 /\ n_attrs cn0 = n_attrs sn0 /\
     n_content cn0 = [CData (DString name)].
-
-(* orig, orig_1, orig_2, ... : the names make_unique_item_name may choose *)
-Definition suffixed (orig : list N) (k : N) : list N := orig ++ [95] ++ to_dec k.
-Definition NameOf (orig name : list N) : Prop := name = orig \/ exists k, 1 <= k /\ name = suffixed orig k.
 
 Example suffixed_ex : suffixed (BS "Sig") 12 = BS "Sig_12".
 Proof. reflexivity. Qed.
